@@ -22,6 +22,19 @@ type procCase struct {
 	// Decoy: the chain is given as two WithMiddleware options, the first from a slice with spare
 	// capacity that is also used to spawn a second, unrelated actor afterwards
 	Decoy bool `json:"decoy"`
+	// AsChild: the scripted actor is not spawned by Engine.Spawn but by Context.SpawnChild from a
+	// parent that does nothing else (same options); its id is then p/q/t/a
+	AsChild bool `json:"as_child"`
+}
+
+type spawnReq struct{}
+
+// the scripted actor's registry kind (Registry.GetPID(kind, "a")) and full id
+func (c procCase) kind() string {
+	if c.AsChild {
+		return "p/q/t"
+	}
+	return "t"
 }
 
 type procRule struct {
@@ -139,7 +152,7 @@ func (w *procWorld) newPill(ctx context.Context) {
 	// the waiter: the moment the context is done, is the target still registered?
 	go func() {
 		<-ctx.Done()
-		pr.regAtDone = w.e.Registry.GetPID("t", "a") != nil
+		pr.regAtDone = w.e.Registry.GetPID(w.c.kind(), "a") != nil
 		close(pr.seen)
 	}()
 }
@@ -201,13 +214,14 @@ func (s *scripted) Receive(c *actor.Context) {
 func (w *procWorld) middleware(id int) actor.MiddlewareFunc {
 	return func(next actor.ReceiveFunc) actor.ReceiveFunc {
 		return func(c *actor.Context) {
-			w.mu.Lock()
-			if id == 0 {
-				w.chainAt = nil
-				w.chainOK = true
+			// deliveries to the scripted actor only (the decoy shares these middlewares). The log is
+			// cleared by the receiver at the end of the chain, never here: a chain that runs its
+			// middlewares twice over must show as such
+			if pid := c.PID(); pid != nil && pid.ID == w.c.kind()+"/a" {
+				w.mu.Lock()
+				w.chainAt = append(w.chainAt, id)
+				w.mu.Unlock()
 			}
-			w.chainAt = append(w.chainAt, id)
-			w.mu.Unlock()
 			next(c)
 		}
 	}
@@ -227,7 +241,7 @@ func runProc(raw json.RawMessage) (any, error) {
 	mon := e.SpawnFunc(func(ctx *actor.Context) {
 		w.mu.Lock()
 		defer w.mu.Unlock()
-		isOurs := func(p *actor.PID) bool { return p != nil && p.ID == "t/a" }
+		isOurs := func(p *actor.PID) bool { return p != nil && p.ID == c.kind()+"/a" }
 		switch ev := ctx.Message().(type) {
 		case actor.ActorInitializedEvent:
 			if isOurs(ev.PID) {
@@ -261,7 +275,7 @@ func runProc(raw json.RawMessage) (any, error) {
 	}, "monitor", actor.WithID("m"))
 	e.Subscribe(mon)
 	es := actor.VerifEventStream(e)
-	target := actor.NewPID(e.Address(), "t/a")
+	target := actor.NewPID(e.Address(), c.kind()+"/a")
 	quiesce := func() bool {
 		deadline := time.Now().Add(20 * time.Second)
 		stable := 0
@@ -296,7 +310,7 @@ func runProc(raw json.RawMessage) (any, error) {
 			}
 			obs.Pills = append(obs.Pills, procPill{Done: done, Early: p.early, RegAtDone: p.regAtDone})
 		}
-		obs.Registered = e.Registry.GetPID("t", "a") != nil
+		obs.Registered = e.Registry.GetPID(c.kind(), "a") != nil
 		if obs.Recvs == nil {
 			obs.Recvs = []procRecv{}
 		}
@@ -325,23 +339,51 @@ func runProc(raw json.RawMessage) (any, error) {
 		opts = append(opts, actor.WithMiddleware(common...), actor.WithMiddleware(w.middleware(c.Chain-1)))
 	}
 	spawnPanicked := false
-	func() {
-		defer func() {
-			if v := recover(); v != nil {
-				spawnPanicked = true
+	producer := func() actor.Receiver {
+		w.mu.Lock()
+		w.incs++
+		inc := w.incs
+		w.mu.Unlock()
+		return &scripted{w: w, inc: inc}
+	}
+	startedAtReturn := false
+	if c.AsChild {
+		back := make(chan struct{})
+		parent := e.SpawnFunc(func(ctx *actor.Context) {
+			if _, ok := ctx.Message().(spawnReq); !ok {
+				return
 			}
-		}()
-		e.Spawn(func() actor.Receiver {
+			defer close(back)
+			defer func() {
+				if v := recover(); v != nil {
+					spawnPanicked = true
+				}
+			}()
+			ctx.SpawnChild(producer, "t", opts...)
 			w.mu.Lock()
-			w.incs++
-			inc := w.incs
+			startedAtReturn = w.started
 			w.mu.Unlock()
-			return &scripted{w: w, inc: inc}
-		}, "t", opts...)
-	}()
-	w.mu.Lock()
-	obs.SpawnStarted = w.started
-	w.mu.Unlock()
+		}, "p", actor.WithID("q"))
+		e.Send(parent, spawnReq{})
+		select {
+		case <-back:
+		case <-time.After(20 * time.Second):
+			obs.Hang = true
+		}
+	} else {
+		func() {
+			defer func() {
+				if v := recover(); v != nil {
+					spawnPanicked = true
+				}
+			}()
+			e.Spawn(producer, "t", opts...)
+		}()
+		w.mu.Lock()
+		startedAtReturn = w.started
+		w.mu.Unlock()
+	}
+	obs.SpawnStarted = startedAtReturn
 	if spawnPanicked {
 		obs.Escaped = true
 		quiesce()
